@@ -18,6 +18,7 @@ RULE = ('Finite doubles: Hypothesis floats, uniform random 64-bit patterns, ever
         'float(text)), numeric near-misses (must be null) and arbitrary text (null or a finite number, never an exception). '
         'Non-trivial: x is non-integral, >= 1e16 or < 1e-4 in magnitude (exponent forms), or the string is a near-miss; distinct by value/text.')
 RULE += ' Also: integral numbers as the library hands them to a script (mathFloor, mathCeil, numberParseInt, jsonParse, mathAbs, mathMax), magnitudes up to 1e308.'
+RULE += ' Round 7: texts padded to 4 290-9 000 characters (leading zeros, surrounding blanks, trailing fraction zeros); numberParseInt of any decimal text with a fraction point or an exponent must be null; parseInt / parseFloat called under their expression names must agree with the script functions.'
 ASSUMPTIONS = [
     'CPython float repr is the shortest round-trip representation (trusted)',
     'Python-specific leniencies of float()/int() (underscores, non-ASCII digits, surrounding white space) are not asserted either way',
